@@ -22,22 +22,22 @@ theorem adds_refl {β} (esL : List (List β)) (x : Nat) (o : IO β) : Adds esL x
 theorem indexed_chunk_fold_spec {β} (indices : List Int) (values : List β) (map_ : List Int) (inv : Int) (cs vf : Nat)
     (o : IO β) (esL : List (List β))
     (hok : IndexedOK indices values) (hcs1 : 1 ≤ cs) (hcs : map_.length ≤ cs) (hesLen : esL.length = map_.length)
-    (hr : InRange (entries indices values).length map_ inv) (hm : ValidMonotone map_ inv)
+    (hr : InRange (entries indices values).length map_ inv)
     (hes : ∀ (p : Nat) (k : Int), map_[p]? = some k → esL[p]? = lookup (entries indices values) inv [] k) :
     ∃ subs, subchunks map_ inv cs = .ok subs ∧
       ((∃ o', foldE (indexedSubBody indices values map_ inv cs vf) subs o = .ok o' ∧ Adds esL 0 map_.length o o' ∧
           ∀ x ∈ esL, x.length ≤ cs * vf) ∨
        (∃ e, foldE (indexedSubBody indices values map_ inv cs vf) subs o = .error e ∧
           OversizeE (entries indices values) map_ inv (cs * vf) e)) := by
-  obtain ⟨subs, hsubs, htiles⟩ := subchunks_tiles map_ inv cs hcs1
+  obtain ⟨subs, hsubs, htiles, hmono⟩ := subchunks_mono map_ inv cs hcs1
   refine ⟨subs, hsubs, ?_⟩
-  have h := foldE_tiles_err (indexedSubBody indices values map_ inv cs vf)
+  have h := foldE_tiles_err_mem (indexedSubBody indices values map_ inv cs vf)
     (fun x o' => Adds esL 0 x o o' ∧ ∀ y ∈ slice esL 0 x, y.length ≤ cs * vf)
     (OversizeE (entries indices values) map_ inv (cs * vf)) map_.length subs 0 o htiles
     ⟨adds_refl esL 0 o, by simp [slice_self]⟩
     (by
-      intro x y o1 _ hxy hy ⟨hP, hF⟩
-      rcases indexedSubBody_spec indices values map_ inv cs vf x y o1 esL hok hxy hy hcs hesLen hr hm hes with
+      intro x y o1 hmem _ hxy hy ⟨hP, hF⟩
+      rcases indexedSubBody_spec indices values map_ inv cs vf x y o1 esL hok hxy hy hcs hesLen hr (hmono (x, y) hmem) hes with
         ⟨o2, hrun, hadd, hfit⟩ | ⟨e, hrun, herr⟩
       · refine Or.inl ⟨o2, hrun, adds_trans esL 0 x y o o1 o2 (by omega) (by omega) hP hadd, ?_⟩
         intro z hz
@@ -64,7 +64,7 @@ def IChunkInv {β} (m : List Int) (cs cap : Nat) (es : List (List β)) (s : ISt 
 theorem indexedChunkBody_spec {β} (indices : List Int) (values : List β) (m : List Int) (inv : Int) (cs vf : Nat)
     (es : List (List β)) (s : ISt β)
     (hok : IndexedOK indices values) (hcs1 : 1 ≤ cs)
-    (hr : InRange (entries indices values).length m inv) (hm : ValidMonotone m inv)
+    (hr : InRange (entries indices values).length m inv)
     (hspec : mapSpec (entries indices values) inv [] m = some es)
     (hI : IChunkInv m cs (cs * vf) es s) (hg : s.lo < m.length) :
     (∃ s', indexedChunkBody indices values m inv cs vf s = .ok s' ∧ IChunkInv m cs (cs * vf) es s' ∧
@@ -78,7 +78,7 @@ theorem indexedChunkBody_spec {β} (indices : List Int) (values : List β) (m : 
     simp only [slice_length]; omega
   obtain ⟨subs, hsubs, hcase⟩ :=
     indexed_chunk_fold_spec indices values (slice m s.lo s.hi) inv cs vf s.io (slice es s.lo s.hi) hok hcs1
-      (by rw [hlen]; omega) heslLen (inRange_slice hr _ _) (validMonotone_slice hm _ _)
+      (by rw [hlen]; omega) heslLen (inRange_slice hr _ _)
       (by
         intro p k hpk
         rw [slice_getElem?] at hpk ⊢
@@ -117,23 +117,23 @@ theorem indexedChunkBody_spec {β} (indices : List Int) (values : List β) (m : 
     for every chunk size ≥ 1, marker and value factor: either every mapped entry fits the value buffer and the result
     is the specified column, or some mapped entry does not fit and the result is the D5 `ValueError` — never
     `outOfFuel` (a spin), never an out-of-bounds access. -/
-theorem indexed_stream_total {β} (indices : List Int) (values : List β) (m : List Int) (inv : Int) (cs vf : Nat)
+theorem indexed_stream_total_any {β} (indices : List Int) (values : List β) (m : List Int) (inv : Int) (cs vf : Nat)
     (hok : IndexedOK indices values) (hcs1 : 1 ≤ cs)
-    (hr : InRange (entries indices values).length m inv) (hm : ValidMonotone m inv) :
+    (hr : InRange (entries indices values).length m inv) :
     (∃ out es, orderedMapValidIndexedStream indices values m inv cs vf = .ok out ∧
       mapSpec (entries indices values) inv [] m = some es ∧ out = encodeIndexed es ∧
       ∀ x ∈ es, x.length ≤ cs * vf) ∨
     (∃ e, orderedMapValidIndexedStream indices values m inv cs vf = .error e ∧
       OversizeE (entries indices values) m inv (cs * vf) e) := by
   obtain ⟨es, hspec⟩ : ∃ es, mapSpec (entries indices values) inv [] m = some es := by
-    obtain ⟨out, _, h⟩ := stream_spec (entries indices values) m inv cs [] hcs1 hr hm
+    obtain ⟨out, _, h⟩ := stream_spec_any (entries indices values) m inv cs [] hcs1 hr
     exact ⟨out, h⟩
   have h := whileE_rule_err (fun s : ISt β => decide (s.lo < m.length)) (indexedChunkBody indices values m inv cs vf)
     (IChunkInv m cs (cs * vf) es) (OversizeE (entries indices values) m inv (cs * vf)) (fun s => m.length - s.lo)
     (by
       intro s hI hg
       have hg' : s.lo < m.length := by simpa using hg
-      exact indexedChunkBody_spec indices values m inv cs vf es s hok hcs1 hr hm hspec hI hg')
+      exact indexedChunkBody_spec indices values m inv cs vf es s hok hcs1 hr hspec hI hg')
     m.length ⟨0, min (0 + cs) m.length, ⟨0, List.replicate (min 1 cs) 0, []⟩⟩
     ⟨by simp, rfl, by simp [sumLen], by
       have : min 1 cs = 1 := by omega
@@ -158,32 +158,63 @@ theorem mapped_entry_row {β} (E : List (List β)) (m : List Int) (inv : Int) (e
   exact List.mem_of_getElem? this
 
 /-- `ordered_map_valid_indexed_stream` = `mapIndexedSpec` whenever every *mapped* entry fits the value buffer -/
-theorem indexed_stream_spec {β} (indices : List Int) (values : List β) (m : List Int) (inv : Int) (cs vf : Nat)
+theorem indexed_stream_spec_any {β} (indices : List Int) (values : List β) (m : List Int) (inv : Int) (cs vf : Nat)
     (hok : IndexedOK indices values) (hcs1 : 1 ≤ cs)
-    (hr : InRange (entries indices values).length m inv) (hm : ValidMonotone m inv)
+    (hr : InRange (entries indices values).length m inv)
     (hcap : ∀ (r : Nat) (k : Int) (x : List β), m[r]? = some k → k ≠ inv → (entries indices values)[k.toNat]? = some x →
       x.length ≤ cs * vf) :
     ∃ out, orderedMapValidIndexedStream indices values m inv cs vf = .ok out ∧
       mapIndexedSpec indices values inv m = some out := by
-  rcases indexed_stream_total indices values m inv cs vf hok hcs1 hr hm with
+  rcases indexed_stream_total_any indices values m inv cs vf hok hcs1 hr with
     ⟨out, es, hrun, hspec, hout, _⟩ | ⟨e, _, _, p, k, x, hpk, hki, _, hent, hbig⟩
   · exact ⟨out, hrun, by simp [mapIndexedSpec, hspec, hout]⟩
   · have := hcap p k x hpk hki hent
     omega
 
 /-- D5 as repaired, in full: a mapped entry longer than the value buffer makes the stream end with the `ValueError` -/
-theorem indexed_stream_oversize {β} (indices : List Int) (values : List β) (m : List Int) (inv : Int) (cs vf : Nat)
+theorem indexed_stream_oversize_any {β} (indices : List Int) (values : List β) (m : List Int) (inv : Int) (cs vf : Nat)
     (hok : IndexedOK indices values) (hcs1 : 1 ≤ cs)
-    (hr : InRange (entries indices values).length m inv) (hm : ValidMonotone m inv)
+    (hr : InRange (entries indices values).length m inv)
     (r : Nat) (k : Int) (x : List β) (hk : m[r]? = some k) (hki : k ≠ inv)
     (hx : (entries indices values)[k.toNat]? = some x) (hbig : cs * vf < x.length) :
     orderedMapValidIndexedStream indices values m inv cs vf
       = .error (.valueError "entry does not fit the value buffer") := by
-  rcases indexed_stream_total indices values m inv cs vf hok hcs1 hr hm with
+  rcases indexed_stream_total_any indices values m inv cs vf hok hcs1 hr with
     ⟨out, es, _, hspec, _, hfit⟩ | ⟨e, hrun, herr, _⟩
   · have hmem := mapped_entry_row _ m inv es hspec r k x hk hki (hr r k hk hki).1 hx
     have := hfit x hmem
     omega
   · rw [hrun, herr]
+
+/-! the ordered-map forms (kept for their users; since the NC02a repair of the splitter the ordering hypothesis is not
+    needed any more) -/
+
+theorem indexed_stream_total {β} (indices : List Int) (values : List β) (m : List Int) (inv : Int) (cs vf : Nat)
+    (hok : IndexedOK indices values) (hcs1 : 1 ≤ cs)
+    (hr : InRange (entries indices values).length m inv) (_hm : ValidMonotone m inv) :
+    (∃ out es, orderedMapValidIndexedStream indices values m inv cs vf = .ok out ∧
+      mapSpec (entries indices values) inv [] m = some es ∧ out = encodeIndexed es ∧
+      ∀ x ∈ es, x.length ≤ cs * vf) ∨
+    (∃ e, orderedMapValidIndexedStream indices values m inv cs vf = .error e ∧
+      OversizeE (entries indices values) m inv (cs * vf) e) :=
+  indexed_stream_total_any indices values m inv cs vf hok hcs1 hr
+
+theorem indexed_stream_spec {β} (indices : List Int) (values : List β) (m : List Int) (inv : Int) (cs vf : Nat)
+    (hok : IndexedOK indices values) (hcs1 : 1 ≤ cs)
+    (hr : InRange (entries indices values).length m inv) (_hm : ValidMonotone m inv)
+    (hcap : ∀ (r : Nat) (k : Int) (x : List β), m[r]? = some k → k ≠ inv → (entries indices values)[k.toNat]? = some x →
+      x.length ≤ cs * vf) :
+    ∃ out, orderedMapValidIndexedStream indices values m inv cs vf = .ok out ∧
+      mapIndexedSpec indices values inv m = some out :=
+  indexed_stream_spec_any indices values m inv cs vf hok hcs1 hr hcap
+
+theorem indexed_stream_oversize {β} (indices : List Int) (values : List β) (m : List Int) (inv : Int) (cs vf : Nat)
+    (hok : IndexedOK indices values) (hcs1 : 1 ≤ cs)
+    (hr : InRange (entries indices values).length m inv) (_hm : ValidMonotone m inv)
+    (r : Nat) (k : Int) (x : List β) (hk : m[r]? = some k) (hki : k ≠ inv)
+    (hx : (entries indices values)[k.toNat]? = some x) (hbig : cs * vf < x.length) :
+    orderedMapValidIndexedStream indices values m inv cs vf
+      = .error (.valueError "entry does not fit the value buffer") :=
+  indexed_stream_oversize_any indices values m inv cs vf hok hcs1 hr r k x hk hki hx hbig
 
 end Exetera.MapValid
